@@ -892,8 +892,6 @@ def run_lb(case):
     try:
         snap = lb.snapshot()
     except (ValueError, RuntimeError) as e:
-        if not vals:
-            return {"tags": ["lb", "lb:empty_snapshot_refused"], "nontrivial": False}
         raise Violation("lb_snapshot_refused|" + _lb_shape(T), "snapshot raised %s: %s" % (type(e).__name__, str(e)[:300]), observed=str(e)[:300])
     err = snap.validityerror()
     if err is not None:
